@@ -103,6 +103,11 @@ def analyse(path):
             continue
         if isinstance(st, ast.If) and not st.orelse and all(isinstance(b, ast.Raise) for b in st.body):
             rt_shape.append("guard")
+        elif isinstance(st, ast.Assign) and all(isinstance(t, ast.Name) for t in st.targets) and not any(
+                isinstance(n, ast.Attribute) and isinstance(n.value, ast.Name) and n.value.id == "self" and isinstance(n.ctx, ast.Store) for n in ast.walk(st)) and not any(
+                isinstance(n, ast.Call) and isinstance(n.func, ast.Attribute) and isinstance(n.func.value, ast.Name) and n.func.value.id == "self" for n in ast.walk(st)):
+            # a local computed for a guard (no attribute of the instance is written, no method of it is called)
+            rt_shape.append("guard")
         elif isinstance(st, ast.Expr) and ast.unparse(st.value).startswith("self.run("):
             rt_shape.append("run")
         elif isinstance(st, ast.Return):
